@@ -80,16 +80,21 @@ func vfRawConnect(ctx context.Context, s *Server, tag string) *vfRaw {
 	sconn, _ := uacp.NewConn(b, ack)
 	go s.cb.RegisterConn(ctx, sconn, nil, nil, nil)
 	c := &vfRaw{conn: cconn}
-	or, _ := c.call(&ua.OpenSecureChannelRequest{RequestHeader: &ua.RequestHeader{AuthenticationToken: ua.NewTwoByteNodeID(0), RequestHandle: 1}, RequestType: ua.SecurityTokenRequestTypeIssue,
+	or, _ := c.call(&ua.OpenSecureChannelRequest{RequestHeader: vfRawHdr(ua.NewTwoByteNodeID(0)), RequestType: ua.SecurityTokenRequestTypeIssue,
 		SecurityMode: ua.MessageSecurityModeNone, RequestedLifetime: 60000}).(*ua.OpenSecureChannelResponse)
 	vfAssert(or != nil && or.SecurityToken != nil, "opening the channel fails")
 	c.chanID, c.tokenID = or.SecurityToken.ChannelID, or.SecurityToken.TokenID
-	cr, _ := c.call(&ua.CreateSessionRequest{RequestHeader: &ua.RequestHeader{AuthenticationToken: ua.NewTwoByteNodeID(0)}, RequestedSessionTimeout: 60000}).(*ua.CreateSessionResponse)
+	cr, _ := c.call(&ua.CreateSessionRequest{RequestHeader: vfRawHdr(ua.NewTwoByteNodeID(0)), ClientDescription: &ua.ApplicationDescription{ApplicationName: &ua.LocalizedText{}}, RequestedSessionTimeout: 60000}).(*ua.CreateSessionResponse)
 	vfAssert(cr != nil && cr.AuthenticationToken != nil, "CreateSession fails")
 	c.auth = cr.AuthenticationToken
-	ar, _ := c.call(&ua.ActivateSessionRequest{RequestHeader: &ua.RequestHeader{AuthenticationToken: c.auth}, ClientSignature: &ua.SignatureData{}}).(*ua.ActivateSessionResponse)
+	ar, _ := c.call(&ua.ActivateSessionRequest{RequestHeader: vfRawHdr(c.auth), ClientSignature: &ua.SignatureData{}, UserIdentityToken: ua.NewExtensionObject(nil), UserTokenSignature: &ua.SignatureData{}}).(*ua.ActivateSessionResponse)
 	vfAssert(ar != nil && ar.ResponseHeader.ServiceResult == ua.StatusOK, "ActivateSession fails")
 	return c
+}
+
+// a request header as a real client encodes it (no nil pointers on the wire)
+func vfRawHdr(tok *ua.NodeID) *ua.RequestHeader {
+	return &ua.RequestHeader{AuthenticationToken: tok, RequestHandle: 5, AdditionalHeader: ua.NewExtensionObject(nil)}
 }
 
 type vfOp struct {
@@ -109,7 +114,7 @@ func (c *vfRaw) write(h *vfHist, id *ua.NodeID, v int32) {
 	op := &vfOp{write: true, val: v}
 	h.ops = append(h.ops, op)
 	op.inv = h.tick()
-	r, _ := c.call(&ua.WriteRequest{RequestHeader: &ua.RequestHeader{AuthenticationToken: c.auth, RequestHandle: 5},
+	r, _ := c.call(&ua.WriteRequest{RequestHeader: vfRawHdr(c.auth),
 		NodesToWrite: []*ua.WriteValue{{NodeID: id, AttributeID: ua.AttributeIDValue, Value: &ua.DataValue{EncodingMask: ua.DataValueValue, Value: ua.MustVariant(v)}}}}).(*ua.WriteResponse)
 	op.resp = h.tick()
 	vfAssert(r != nil && len(r.Results) == 1 && r.Results[0] == ua.StatusOK, "a write of the shared node fails")
@@ -119,8 +124,8 @@ func (c *vfRaw) read(h *vfHist, id *ua.NodeID) {
 	op := &vfOp{}
 	h.ops = append(h.ops, op)
 	op.inv = h.tick()
-	r, _ := c.call(&ua.ReadRequest{RequestHeader: &ua.RequestHeader{AuthenticationToken: c.auth, RequestHandle: 6},
-		NodesToRead: []*ua.ReadValueID{{NodeID: id, AttributeID: ua.AttributeIDValue}}}).(*ua.ReadResponse)
+	r, _ := c.call(&ua.ReadRequest{RequestHeader: vfRawHdr(c.auth),
+		NodesToRead: []*ua.ReadValueID{{NodeID: id, AttributeID: ua.AttributeIDValue, DataEncoding: &ua.QualifiedName{}}}}).(*ua.ReadResponse)
 	op.resp = h.tick()
 	vfAssert(r != nil && len(r.Results) == 1 && r.Results[0] != nil && r.Results[0].Value != nil, "a read of the shared node fails")
 	v, ok := r.Results[0].Value.Value().(int32)
@@ -169,6 +174,8 @@ func vfLinearizable(ops []*vfOp, init int32) bool {
 }
 
 func VerifH_C34_Linearizable() {
+	vfFixedClock(true) // message timestamps play no role here
+	vfPreempt(false)   // the set-up (channels, sessions) is sequential
 	s, _, ns := vfServer()
 	id := ua.NewNumericNodeID(ns.ID(), 1000)
 	ns.AddNode(NewVariableNode(id, "v", int32(0)))
@@ -182,6 +189,7 @@ func VerifH_C34_Linearizable() {
 	h := &vfHist{}
 	prog := vfConcrete(vfInt("program", 0, vfParam("c34.programs", 3)-1))
 	done := make(chan bool, 2)
+	vfPreempt(true)
 	go func() {
 		switch prog {
 		case 0: // writer / reader
